@@ -106,8 +106,10 @@ def jobs(tier, seed, report):
                     gg = [x if x == 0 else rnd.choice([' ', ' ', '  ', '\t ']) for x in g]
                     js.append({'name': f'arith-n{n}-p{si}-u{li}', 'kind': 'arith', 'tokens': restrict_ops(toks, g), 'gaps': gg, 'n': n})
     if tier == 'quick':
-        for n in (4, 5):
-            js.append({'name': f'arith-n{n}-flat', 'kind': 'arith', 'tokens': c01.tokens_for(n, ()), 'gaps': None, 'n': n, 'exp_bound': 1 if n == 5 else 2})
+        js.append({'name': 'arith-n4-flat', 'kind': 'arith', 'tokens': c01.tokens_for(4, ()), 'gaps': None, 'n': 4, 'exp_bound': 2})
+        # five operands: three precedence levels open, then an operator that drops one or two of them
+        for fi, al in enumerate((['+-', '*/', '^', '+-*/'], ['*/', '^', '+-*/', '+-*/'], ['+-', '^', '*/', '+-'])):
+            js.append({'name': f'arith-n5-flat{fi}', 'kind': 'arith', 'tokens': c01.tokens_for(5, (), allowed=al), 'gaps': None, 'n': 5, 'exp_bound': 1})
     # single literal / fully parenthesised literal with outer blanks
     for li, g in enumerate([[0, 0], [1, 1], [2, 0], [0, 2]]):
         js.append({'name': f'single-l{li}', 'kind': 'arith', 'tokens': [('leaf', 0)], 'gaps': g, 'n': 1})
